@@ -94,6 +94,10 @@ type LSpec struct {
 	// into one file; no well-formed merge exists without renaming, so a refusal (exit 1) is as
 	// acceptable as a well-formed file — a successful run with duplicate declarations is not.
 	EqualNames bool `json:"equal_names,omitempty"`
+	// LineDirectives: declaring file (dir/file) → file name of a `//line` directive placed above
+	// its declarations (the file was produced from a template elsewhere); positions reported
+	// through the directive must not move the output.
+	LineDirectives map[string]string `json:"line_directives,omitempty"`
 	// LinkedFiles: declaring file (dir/file) → path of the regular file it is a symbolic link
 	// to (a shared source kept outside every package directory). Outputs stay relative to the
 	// declaring file, i.e. to the link.
@@ -167,8 +171,8 @@ func (s *LSpec) Predict(c *LConv) Predicted {
 	}
 	pkgPath, pkgName := "", ""
 	op := c.OutPkg
-	if c.Kind == "variables" && op == "" {
-		// a variables block is generated into its own package by default
+	if c.Kind == "variables" && op == "" && dir == c.Dir {
+		// a variables block written next to its declaration belongs to the declaring package
 		pkgPath, pkgName = importPath(c.Dir), s.PkgNames[c.Dir]
 	}
 	if op != "" {
@@ -264,6 +268,9 @@ func (s *LSpec) render() map[string]string {
 				b.WriteString("import \"unsafe\"\n\n")
 				break
 			}
+		}
+		if ld, ok := s.LineDirectives[key]; ok {
+			fmt.Fprintf(&b, "//line %s:10\n", ld)
 		}
 		for _, c := range convs {
 			if c.Defect == "syntax" {
@@ -445,6 +452,10 @@ func (s *LSpec) renderConv(b *strings.Builder, c *LConv) {
 	if s.Common {
 		cin, cout = "    Common []commontypes.Item\n", "    Common []commontypes.ItemOut\n"
 	}
+	if c.Defect == "errorfield" {
+		// an interface-typed field goverter cannot convert by itself: must be refused
+		cin, cout = cin+"    Err error\n", cout+"    Err error\n"
+	}
 	fmt.Fprintf(b, "type %s struct {\n    %s %s\n    %s string\n    %s []Sub%s\n%s}\n", in, fa, raw, fb, fc, n, cin)
 	fmt.Fprintf(b, "type %s struct {\n    %s %s\n    %s string\n    %s []SubOut%s\n%s}\n", out, fa, cooked, fb, fc, n, cout)
 	fmt.Fprintf(b, "type Sub%s struct{ V%d int }\ntype SubOut%s struct{ V%d int }\n", n, c.Version, n, c.Version)
@@ -611,7 +622,10 @@ func DrawLayout(rng *rand.Rand, nConv int, opts LayoutOpts) *LSpec {
 		if c.Kind == "variables" && c.OutFile != "" && !strings.HasPrefix(c.OutFile, "./same_") {
 			// a variables block written elsewhere needs an output:package; without one keep
 			// the documented default layout
-			if rng.IntN(2) == 0 && !strings.HasPrefix(c.OutFile, RootPlaceholder) {
+			if rng.IntN(3) == 0 {
+				// no output:package: the package is inferred from the location like for any
+				// other converter
+			} else if rng.IntN(2) == 0 && !strings.HasPrefix(c.OutFile, RootPlaceholder) {
 				p := s.Predict(&c)
 				d := path.Dir(p.Path)
 				if d == "." {
@@ -777,6 +791,10 @@ func DrawLayout(rng *rand.Rand, nConv int, opts LayoutOpts) *LSpec {
 	if opts.Common && rng.IntN(3) == 0 {
 		s.Common = true
 	}
+	if opts.Symlinks && rng.IntN(8) == 0 {
+		c := s.Convs[rng.IntN(len(s.Convs))]
+		s.LineDirectives = map[string]string{path.Join(c.Dir, c.File): []string{"../tmpl/src.go.tmpl", "gen-" + c.File, "/abs/elsewhere/x.go"}[rng.IntN(3)]}
+	}
 	if opts.Symlinks && rng.IntN(5) == 0 {
 		c := s.Convs[rng.IntN(len(s.Convs))]
 		s.LinkedFiles = map[string]string{path.Join(c.Dir, c.File): "_shared/src/" + strings.ReplaceAll(path.Join(c.Dir, c.File), "/", "_")}
@@ -875,6 +893,18 @@ func CoverageSpecs() []*LSpec {
 				}
 				s.Convs = []LConv{c, {Dir: "a", File: "vars.go", Kind: "variables", Name: "Vb", Version: 1}}
 				out = append(out, s)
+				if pk == 0 && !strings.HasPrefix(of, "./same_") && of != "" {
+					// the same for a variables block written to that place without output:package
+					v := s.Clone()
+					v.Convs = []LConv{{Dir: "svc/conv", File: "conv.go", Kind: "variables", Name: "Xv", OutFile: of, Version: 1}}
+					out = append(out, v)
+				}
+				if pk == 0 && us == 1 {
+					// the same layout with //line directives in both declaring files
+					l := s.Clone()
+					l.LineDirectives = map[string]string{"svc/conv/conv.go": "../../templates/conv.go.tmpl", "a/vars.go": "/nonexistent/abs/vars.tmpl"}
+					out = append(out, l)
+				}
 				if pk == 0 && us == 0 {
 					// the same layout with both declaring files reached through symbolic links
 					l := s.Clone()
